@@ -1383,11 +1383,6 @@ func (e *CoreExtension) filterFirst(value interface{}, args ...interface{}) (int
 			return v[0], nil
 		}
 		return nil, nil
-	case map[string]interface{}:
-		for _, val := range v {
-			return val, nil // Return first value found
-		}
-		return nil, nil
 	}
 
 	// Try reflection for other types
@@ -1405,8 +1400,9 @@ func (e *CoreExtension) filterFirst(value interface{}, args ...interface{}) (int
 		}
 		return nil, nil
 	case reflect.Map:
-		for _, key := range rv.MapKeys() {
-			return rv.MapIndex(key).Interface(), nil // Return first value found
+		// The first entry is the one a for loop would visit first
+		for _, key := range sortedMapKeys(rv) {
+			return rv.MapIndex(key).Interface(), nil
 		}
 		return nil, nil
 	}
@@ -1695,7 +1691,7 @@ func (e *CoreExtension) filterKeys(value interface{}, args ...interface{}) (inte
 	if rv.Kind() == reflect.Map {
 		// For maps, return the keys as a slice of the same type as the keys
 		keys := make([]interface{}, 0, rv.Len())
-		for _, key := range rv.MapKeys() {
+		for _, key := range sortedMapKeys(rv) {
 			if key.CanInterface() {
 				keys = append(keys, key.Interface())
 			}
